@@ -266,9 +266,17 @@ func checkSemaBubble(c SemaCase) error {
 		rel := make([]chan struct{}, c.G)
 		relClosed := make([]bool, c.G)
 		for i := 0; i < c.G; i++ {
-			if i < len(c.Deadline) && c.Deadline[i] > 0 {
+			// Odd goroutines use the ...Cause variants: the context's error stays
+			// Canceled / DeadlineExceeded, the cause is something else.
+			switch {
+			case i < len(c.Deadline) && c.Deadline[i] > 0 && i%2 == 1:
+				ctxs[i], cancels[i] = context.WithTimeoutCause(context.Background(), time.Duration(c.Deadline[i])*time.Millisecond, errors.New("too slow"))
+			case i < len(c.Deadline) && c.Deadline[i] > 0:
 				ctxs[i], cancels[i] = context.WithTimeout(context.Background(), time.Duration(c.Deadline[i])*time.Millisecond)
-			} else {
+			case i%2 == 1:
+				ctx, cancel := context.WithCancelCause(context.Background())
+				ctxs[i], cancels[i] = ctx, func() { cancel(errors.New("shutting down")) }
+			default:
 				ctxs[i], cancels[i] = context.WithCancel(context.Background())
 			}
 			rel[i] = make(chan struct{})
@@ -495,4 +503,4 @@ var semaBurstProp = vp.Register(vp.Prop[BurstCase]{
 
 func TestBubbleBurst(t *testing.T) { vp.Run(t, semaBurstProp) }
 func TestBubbleOnce(t *testing.T)  { vp.Run(t, onceBubbleProp) }
-func TestBubbleSema(t *testing.T) { vp.Run(t, semaBubbleProp) }
+func TestBubbleSema(t *testing.T)  { vp.Run(t, semaBubbleProp) }
